@@ -663,7 +663,9 @@ func c12World(rc *kernel.RunCtx) {
 		if !middleware && t.Chance(1, 5, "served-by-handler") {
 			c.viaHandler = true
 		}
-		if (middleware || c.viaHandler) && !c.stream && c.cancelAt < 0 && t.Chance(1, 3, "failing-page-with-templ-error-page") {
+		// (a streamed page has reached the client when it fails, so page and error page are one
+		// document; behind the middleware they are also one context)
+		if (middleware || (c.viaHandler && !c.stream)) && c.cancelAt < 0 && t.Chance(1, 3, "failing-page-with-templ-error-page") {
 			c.errPage = true
 			b := t.Range(1, rc.Param("max_nodes", 30), "err-budget")
 			c.errSpec = &Node{K: "seq", Kids: []*Node{genC12(t, ext, &b, 0, nOnce)}}
@@ -802,6 +804,14 @@ func c12World(rc *kernel.RunCtx) {
 				continue
 			}
 			k.Count("fault_page_failed_and_templ_error_page_served", 1)
+			if c.stream {
+				// streamed: the client has the page followed by the error page, rendered with one context
+				all := append(append([]useRec{}, c.env.Uses...), c.errEnv.Uses...)
+				totalUses += len(all)
+				k.Count("probe_streamed_page_followed_by_error_page", 1)
+				checkC12(rc, k, who+fmt.Sprintf(" [streamed; the page failed at its end and the error page %v follows it in the same response]", c.errSpec), string(c.w.got), all, u, nOnce)
+				continue
+			}
 			totalUses += len(c.errEnv.Uses)
 			checkC12(rc, k, who+fmt.Sprintf(" [error page %v served after the page itself failed and was discarded]", c.errSpec), string(c.w.got), c.errEnv.Uses, u, nOnce)
 			continue
